@@ -23,6 +23,8 @@ RULE = ('Hypothesis: lists of 0..8 elements (objects, or dicts with '
         'key and >= 1 inversion in input order.  Distinct = case hash.')
 RULE += (
          'Also: item sorts combined with a batch window. ')
+RULE += (
+         'Directions spelled in any case. ')
 ASSUMPTIONS = [
     'keys inside one list are mutually comparable (one type, plus None / '
     'missing)',
